@@ -50,9 +50,13 @@ def run(ctx):
     RESAMP = [128]
     BAND = ["bessel"]
 
+    NOISEREC = [None]
+
     def estimate(y, seed):
         np.random.seed(seed)
         with deadline(300):
+            if NOISEREC[0] is not None:      # the waveform given as a signal object with a separate noise record
+                return GET_EYE(protect(electrical_signal(y - NOISEREC[0], NOISEREC[0])), sps_resamp=RESAMP[0])
             return GET_EYE(protect(electrical_signal(y)), sps_resamp=RESAMP[0])
 
     def fields(e):
@@ -84,7 +88,13 @@ def run(ctx):
         base, nz = synth(sps, kind, nslots, 100 + it, sigma)
         d = b - a
         y = a + d * base + d * nz
+        NOISEREC[0] = d * nz if it % 4 == 2 else None
         e = estimate(y, it)
+        if it % 4 == 2:
+            e_again = estimate(y, it)          # the same object's samples estimated twice: identical (nothing was written into the caller's arrays)
+            if finite(e) and (not finite(e_again) or abs(e_again.s0 - e.s0) > 1e-12 * d or abs(e_again.mu1 - e.mu1) > 1e-12 * d):
+                ctx.violation("est:repeated-call-differs", "GET_EYE on the same waveform under the same numpy seed gave another estimate the second time", {"levels": [a, b], "sps": sps})
+        NOISEREC[0] = None
         ok = finite(e)
         if ok:
             events.append({"kind": "est", "finite": True, "mu0e": ppm((e.mu0 - a) / d), "mu1e": ppm((e.mu1 - b) / d), "s0": ppm(e.s0 / d), "s1": ppm(e.s1 / d),
@@ -126,6 +136,28 @@ def run(ctx):
             events.append({"kind": "est", "finite": False})
         meta.append(("est", (a, b), sps, "noise-free-" + BAND[0]))
         ctx.case(("est-noise-free", sps, BAND[0], RESAMP[0], a < 0))
+    # few samples per slot without interpolation (odd numbers included), and records that are not a whole number of slot pairs: the level,
+    # spread, threshold and index clauses (the timing bands presuppose a finer grid)
+    for it in range(30 if T else 10):
+        sps = [5, 5, 7, 9, 11, 6, 16, 16, 32, 3][it % 10]
+        BAND[0] = ["bessel", "rc"][it % 2]
+        RESAMP[0] = None if sps < 16 else [None, 64][it % 2]
+        a, b = [(0.0, 1.0), (-1.0, 1.0), (0.2, 1.2)][it % 3]
+        base, nz = synth(sps, "random", 256, 1500 + it, 0.02)
+        extra = [0, 0, 0, 0, 3, 7, 9, 24, 8, 0][it % 10]           # stray samples after the last whole pair of slots
+        if extra:
+            base, nz = np.concatenate([base, base[:extra]]), np.concatenate([nz, nz[:extra]])
+        d = b - a
+        e = estimate(a + d * base + d * nz, 90 + it)
+        if finite(e):
+            events.append({"kind": "est", "finite": True, "mu0e": ppm((e.mu0 - a) / d), "mu1e": ppm((e.mu1 - b) / d), "s0": ppm(e.s0 / d), "s1": ppm(e.s1 / d),
+                           "sigma": ppm(0.02), "thr_in": bool(e.mu0 < e.threshold < e.mu1), "tdist_ppm": ppm(e.t_right - e.t_left),
+                           "topt_mid_ppm": ppm(e.t_opt - (e.t_left + e.t_right) / 2), "i": int(e.i), "i_int": bool(isinstance(e.i, (int, np.integer))), "sps": sps,
+                           "grid": int(RESAMP[0] or sps), "populated": bool((RESAMP[0] or sps) >= 16)})
+        else:
+            events.append({"kind": "est", "finite": False})
+        meta.append(("est", (a, b), sps, f"coarse-or-ragged:{extra}"))
+        ctx.case(("est-coarse", sps, BAND[0], extra > 0))
     RESAMP[0], BAND[0] = 128, "bessel"
     # two records with the same number of samples but different samples per slot, one after the other (and back)
     for it, seq in enumerate([[(16, 256), (32, 128), (16, 256)], [(8, 512), (32, 128), (16, 256)]] if T else [[(16, 256), (32, 128), (16, 256)]]):
